@@ -46,11 +46,31 @@ def inst_C05(profile):
     return obs
 
 
+ALPHABETS = [("dna", "dna_check", "C05_dna_alphabet"), ("iupac", "iupac_check", "C05_iupac_nucleotide_sets"),
+             ("amino", "amino_check", "C05_amino_codons"), ("text", "text_check", "C05_text_literal_bytes"),
+             ("degen", "degen_check", "C05_degenerate_strong_weak")]
+
+
+def inst_C01(profile):
+    """which bytes are symbol characters: the documented alphabets (the C05 sweeps), and no codec
+    accepts a byte >= 0x80 (there is no such symbol character)"""
+    obs = okb_lift(["C01.C01_parse_one_symbol_per_byte @C (codec_okb_sound @C @INST)",
+                    "C01.C01_display_parse_roundtrip @C (codec_okb_sound @C @INST)"])(profile)
+    for c, chk, _ in ALPHABETS:
+        obs.append({"name": "the symbol characters of %s are the documented alphabet" % c, "expr": "%s %s" % (chk, c)})
+    for c in CODECS:
+        obs.append({"name": "%s: no byte >= 0x80 is a symbol character" % c,
+                    "expr": "forallb (fun b => match Codec.try_ascii %s b with Some _ => (b <? 128)%%N | None => true end) "
+                            "bytes256" % c,
+                    "witness": "find (fun b => match Codec.try_ascii %s b with Some _ => negb (b <? 128)%%N | None => false end) "
+                               "bytes256" % c,
+                    "witness_meaning": "a byte >= 0x80 that try_from_ascii accepts"})
+    return obs
+
+
 def _inst_C05(profile):
     obs = okb(profile, lift=True)
-    for c, chk, thm in [("dna", "dna_check", "C05_dna_alphabet"), ("iupac", "iupac_check", "C05_iupac_nucleotide_sets"),
-                        ("amino", "amino_check", "C05_amino_codons"), ("text", "text_check", "C05_text_literal_bytes"),
-                        ("degen", "degen_check", "C05_degenerate_strong_weak")]:
+    for c, chk, thm in ALPHABETS:
         obs.append({"name": "documented alphabet of %s" % c, "expr": "%s %s" % (chk, c),
                     "lift": ["C05.%s %s @INST" % (thm, c)]})
     for c in ("dna", "iupac", "mdna", "miupac", "degen"):
@@ -278,8 +298,7 @@ REGISTRY = {
                 notes=["text::Dna::try_from_bits accepts every byte: documented ('a literal interpretation of bytes')"]),
     "C01": dict(theorems=theorems_of("C01"), imports=PROOF_IMPORTS,
                 extra_imports=["From BioSeqProps Require Import C01."],
-                instances=okb_lift(["C01.C01_parse_one_symbol_per_byte @C (codec_okb_sound @C @INST)",
-                                    "C01.C01_display_parse_roundtrip @C (codec_okb_sound @C @INST)"]),
+                instances=inst_C01,
                 generators=[(c, P.gen_C01) for c in ALL]),
     "C02": dict(theorems=theorems_of("C02"), imports=PROOF_IMPORTS,
                 extra_imports=["From BioSeqProps Require Import C02."],
